@@ -177,7 +177,7 @@ class Gen:
                 pos, kw = self.kv(parts[2:])
                 mod.run(self, kw, None, 'specs/' + spec_rel, i + 1)
                 i += 1
-            elif d in ('fn', 'arm', 'closure', 'loopbody', 'fnprefix', 'trait', 'implall', 'macro'):
+            elif d in ('fn', 'arm', 'closure', 'loopbody', 'fnprefix', 'fnsuffix', 'trait', 'implall', 'macro'):
                 j = i + 1
                 block = []
                 while j < len(lines) and lines[j].strip() != '//@end':
@@ -974,6 +974,32 @@ class Gen:
         c_hi = len(self.out)
         self.emit('{', 'spec', specfile, specline, False)
         segs = self.body_with_insertions(src, it.body_open + 1, hi, loops, proofs, rel)
+        self.emit_segs(segs, rel)
+        self.emit('}', 'spec', specfile, specline, False)
+        self.end_block(c_lo, c_hi)
+
+    def do_fnsuffix(self, parts, block, specfile, specline):
+        """R3b: the statements of a function body from a given statement to the end, as a function of their own."""
+        pos, kw = self.kv(parts)
+        rel, selector = pos[0], pos[1]
+        src, it = self.find_fn(rel, selector)
+        needle = kw['from'].replace('~', ' ')
+        base = src.toks[it.body_open].end
+        body = src.text[base:src.toks[it.end].start]
+        if body.count(needle) != 1:
+            raise LostAnchor('fnsuffix: %r occurs %d times in %s' % (needle, body.count(needle), selector))
+        k = body.find(needle)
+        lo = it.body_open + 1
+        while lo < it.end and src.toks[lo].start < base + k:
+            lo += 1
+        oblig = kw['as']
+        header, loops, proofs = self.parse_block(block)
+        self.begin_block(oblig, 'suffix', rel, src, lo, it.end - 1, selector + ' statements from `%s` to the end' % needle)
+        c_lo = len(self.out)
+        self.emit(header, 'spec', specfile, specline + 1)
+        c_hi = len(self.out)
+        self.emit('{', 'spec', specfile, specline, False)
+        segs = self.body_with_insertions(src, lo, it.end - 1, loops, proofs, rel)
         self.emit_segs(segs, rel)
         self.emit('}', 'spec', specfile, specline, False)
         self.end_block(c_lo, c_hi)
